@@ -1,3 +1,649 @@
-//! C03 — bounded checks (to be written)
-use crate::ctx::Ctx;
-pub fn run(_ctx: &mut Ctx) {}
+//! C03 — symmetric monoidal category laws hold up to genuine isomorphism.
+//!
+//! Every law is written as a pair of expressions (lhs, rhs) over operands f, g, h, k / object
+//! lists a, b, c.  Both expressions are evaluated (1) by the REAL library (strict or lax
+//! representation) and (2) by the plain reference operations of `model` (disjoint union, naive
+//! closure of the boundary pairs, ...).  Clauses:
+//!   * `C03.<law>`           library(lhs) ≅ library(rhs)             (model::iso, witness search)
+//!   * `C03.<law>-defined`   library result is Some exactly when the boundary types match
+//!   * `C03.<law>-ref`       each library side ≅ the reference value of that side
+//!   * `C03.wf`              every library result is deeply well-formed
+//!   * `C03.no-panic`        no library call panics
+//!   * `C03.oracle-self`     (self check of this file) the two reference sides are isomorphic
+//! Operands may carry pending unifications `q` (same-label pairs): the lax run keeps them pending
+//! inside the operand, the strict run applies them first (reference quotient).
+use crate::ctx::{guard, Ctx, Rng};
+use crate::model::*;
+use open_hypergraphs::array::vec::*;
+use open_hypergraphs::category::*;
+use open_hypergraphs::lax;
+use open_hypergraphs::semifinite::SemifiniteFunction;
+use serde_json::{json, Value};
+
+type Check = fn(&mut Ctx, &Value);
+const CHECKS: &[(&str, Check)] = &[
+    ("assoc", chk_assoc),
+    ("unit", chk_unit),
+    ("tensor-assoc", chk_tensor_assoc),
+    ("interchange", chk_interchange),
+    ("twist-natural", chk_twist_natural),
+    ("twist-inverse", chk_twist_inverse),
+    ("hexagon", chk_hexagon),
+];
+
+// ------------------------------------------------------------------------------------------------
+// helpers (self-contained; duplicated in c04.rs on purpose)
+// ------------------------------------------------------------------------------------------------
+/// operand: a plain model plus pending same-label identifications
+#[derive(Clone, Debug)]
+struct Opd {
+    m: M,
+    q: Vec<(usize, usize)>,
+}
+impl Opd {
+    fn json(&self) -> Value {
+        let mut v = self.m.json();
+        if !self.q.is_empty() {
+            v["q"] = json!(self.q.iter().map(|&(a, b)| vec![a, b]).collect::<Vec<_>>());
+        }
+        v
+    }
+    fn from_json(v: &Value) -> Option<Opd> {
+        let m = M::from_json(v)?;
+        if !m.valid() {
+            return None;
+        }
+        let mut q = vec![];
+        if let Some(arr) = v.get("q").and_then(|x| x.as_array()) {
+            for p in arr {
+                let p = p.as_array()?;
+                if p.len() != 2 {
+                    return None;
+                }
+                let (a, b) = (p[0].as_u64()? as usize, p[1].as_u64()? as usize);
+                if a >= m.w.len() || b >= m.w.len() || m.w[a] != m.w[b] {
+                    return None;
+                }
+                q.push((a, b));
+            }
+        }
+        Some(Opd { m, q })
+    }
+    /// the diagram denoted by the operand
+    fn sem(&self) -> M {
+        quotient(&self.m, &self.q).expect("same-label identifications").0
+    }
+}
+
+#[derive(Clone)]
+enum D {
+    S(SOH),
+    L(LOH),
+}
+
+fn obj(w: &[u8]) -> SF<u8> {
+    SemifiniteFunction(VecArray(w.to_vec()))
+}
+
+fn build(o: &Opd, lax_repr: bool) -> D {
+    if lax_repr {
+        let mut l = o.m.to_lax();
+        for &(a, b) in &o.q {
+            l.unify(lax::NodeId(a), lax::NodeId(b));
+        }
+        D::L(l)
+    } else {
+        D::S(o.sem().to_strict())
+    }
+}
+
+/// read a library value back into the plain model (deep well-formedness; pending identifications of
+/// a lax value are applied with the reference quotient)
+fn d_model(d: &D) -> Result<M, String> {
+    match d {
+        D::S(s) => strict_wf(s),
+        D::L(l) => {
+            let h = &l.hypergraph;
+            if h.adjacency.len() != h.edges.len() {
+                return Err(format!("lax: {} adjacency entries for {} edges", h.adjacency.len(), h.edges.len()));
+            }
+            if h.quotient.0.len() != h.quotient.1.len() {
+                return Err("lax: quotient lists of different length".into());
+            }
+            let (m, q) = M::from_lax(l);
+            if !m.valid() {
+                return Err(format!("lax: node id out of range in {}", m.json()));
+            }
+            if q.iter().any(|&(a, b)| a >= m.w.len() || b >= m.w.len()) {
+                return Err(format!("lax: pending identification out of range {:?}", q));
+            }
+            quotient(&m, &q).map(|x| x.0).ok_or_else(|| format!("lax: pending identifications {:?} join different labels in {}", q, m.json()))
+        }
+    }
+}
+
+enum E {
+    V(usize),
+    Id(Vec<u8>),
+    Tw(Vec<u8>, Vec<u8>),
+    C(Box<E>, Box<E>),
+    T(Box<E>, Box<E>),
+}
+fn v(i: usize) -> E {
+    E::V(i)
+}
+fn id(w: &[u8]) -> E {
+    E::Id(w.to_vec())
+}
+fn tw(a: &[u8], b: &[u8]) -> E {
+    E::Tw(a.to_vec(), b.to_vec())
+}
+fn c(a: E, b: E) -> E {
+    E::C(Box::new(a), Box::new(b))
+}
+fn t(a: E, b: E) -> E {
+    E::T(Box::new(a), Box::new(b))
+}
+fn cat(a: &[u8], b: &[u8]) -> Vec<u8> {
+    [a, b].concat()
+}
+
+/// evaluate with the real library (may panic: callers wrap it in `guard`)
+fn eval_lib(e: &E, vars: &[D], lax_repr: bool) -> Option<D> {
+    Some(match e {
+        E::V(i) => vars[*i].clone(),
+        E::Id(w) => {
+            if lax_repr {
+                D::L(<LOH as Arrow>::identity(w.clone()))
+            } else {
+                D::S(<SOH as Arrow>::identity(obj(w)))
+            }
+        }
+        E::Tw(a, b) => {
+            if lax_repr {
+                D::L(<LOH as SymmetricMonoidal>::twist(a.clone(), b.clone()))
+            } else {
+                D::S(<SOH as SymmetricMonoidal>::twist(obj(a), obj(b)))
+            }
+        }
+        E::C(a, b) => {
+            let (x, y) = (eval_lib(a, vars, lax_repr)?, eval_lib(b, vars, lax_repr)?);
+            match (&x, &y) {
+                (D::S(x), D::S(y)) => D::S(Arrow::compose(x, y)?),
+                (D::L(x), D::L(y)) => D::L(Arrow::compose(x, y)?),
+                _ => unreachable!(),
+            }
+        }
+        E::T(a, b) => {
+            let (x, y) = (eval_lib(a, vars, lax_repr)?, eval_lib(b, vars, lax_repr)?);
+            match (&x, &y) {
+                (D::S(x), D::S(y)) => D::S(Monoidal::tensor(x, y)),
+                (D::L(x), D::L(y)) => D::L(Monoidal::tensor(x, y)),
+                _ => unreachable!(),
+            }
+        }
+    })
+}
+
+/// evaluate with the reference operations (definitions)
+fn eval_ref(e: &E, vars: &[M]) -> Option<M> {
+    Some(match e {
+        E::V(i) => vars[*i].clone(),
+        E::Id(w) => identity(w),
+        E::Tw(a, b) => twist(a, b),
+        E::C(a, b) => compose(&eval_ref(a, vars)?, &eval_ref(b, vars)?)?,
+        E::T(a, b) => tensor(&eval_ref(a, vars)?, &eval_ref(b, vars)?),
+    })
+}
+
+fn is_lax(input: &Value) -> bool {
+    input["repr"].as_str() == Some("lax")
+}
+
+/// Evaluate one law; returns true when its hypotheses held (all compositions defined).
+fn law(ctx: &mut Ctx, check: &str, name: &str, input: &Value, ops: &[Opd], lhs: &E, rhs: &E) -> bool {
+    let lax_repr = is_lax(input);
+    let refs: Vec<M> = ops.iter().map(|o| o.sem()).collect();
+    let vars: Vec<D> = match guard(|| ops.iter().map(|o| build(o, lax_repr)).collect::<Vec<D>>()) {
+        Ok(v) => v,
+        Err(p) => {
+            ctx.fail(check, "C03.no-panic", input, json!(format!("building the operands: {}", p)), json!("operands are valid"));
+            return false;
+        }
+    };
+    let mut got: Vec<Option<M>> = vec![];
+    let mut exp: Vec<Option<M>> = vec![];
+    for (side, e) in [("lhs", lhs), ("rhs", rhs)] {
+        let r = eval_ref(e, &refs);
+        let mut mine = None;
+        match guard(|| eval_lib(e, &vars, lax_repr)) {
+            Err(p) => ctx.fail(check, "C03.no-panic", input, json!(format!("{} {}: panic: {}", name, side, p)), json!("no panic")),
+            Ok(x) => {
+                if x.is_some() != r.is_some() {
+                    ctx.fail(
+                        check,
+                        &format!("C03.{}-defined", name),
+                        input,
+                        json!(format!("{}: library {}", side, if x.is_some() { "Some" } else { "None" })),
+                        json!(if r.is_some() { "Some (boundary types match)" } else { "None (boundary types differ)" }),
+                    );
+                }
+                if let Some(d) = x {
+                    match d_model(&d) {
+                        Err(why) => ctx.fail(check, "C03.wf", input, json!(format!("{} {}: {}", name, side, why)), json!("well-formed result")),
+                        Ok(m) => {
+                            if let Some(r) = &r {
+                                if !is_iso(&m, r) {
+                                    ctx.fail(check, &format!("C03.{}-ref", name), input, json!({"side": side, "library": m.json()}), r.json());
+                                }
+                            }
+                            mine = Some(m);
+                        }
+                    }
+                }
+            }
+        }
+        got.push(mine);
+        exp.push(r);
+    }
+    if let (Some(rl), Some(rr)) = (&exp[0], &exp[1]) {
+        if !is_iso(rl, rr) {
+            ctx.fail(check, "C03.oracle-self", input, json!({"law": name, "lhs": rl.json()}), rr.json());
+        }
+        if let (Some(ml), Some(mr)) = (&got[0], &got[1]) {
+            if !is_iso(ml, mr) {
+                ctx.fail(check, &format!("C03.{}", name), input, json!({"lhs": ml.json()}), json!({"rhs": mr.json()}));
+            }
+        }
+        true
+    } else {
+        false
+    }
+}
+
+fn u8s(v: &Value) -> Option<Vec<u8>> {
+    v.as_array()?.iter().map(|x| x.as_u64().map(|y| y as u8)).collect()
+}
+
+fn opds(input: &Value, names: &[&str]) -> Option<Vec<Opd>> {
+    names.iter().map(|n| Opd::from_json(&input[*n])).collect()
+}
+
+// ------------------------------------------------------------------------------------------------
+// checks
+// ------------------------------------------------------------------------------------------------
+/// input {"repr", "f","g","h"}:  (f;g);h ≅ f;(g;h)
+fn chk_assoc(ctx: &mut Ctx, input: &Value) {
+    let Some(o) = opds(input, &["f", "g", "h"]) else { return };
+    let r: Vec<M> = o.iter().map(|x| x.sem()).collect();
+    let composable = r[0].target_type() == r[1].source_type() && r[1].target_type() == r[2].source_type();
+    ctx.case("assoc", input, composable && r.iter().filter(|m| m.nontrivial()).count() >= 2);
+    law(ctx, "assoc", "assoc", input, &o, &c(c(v(0), v(1)), v(2)), &c(v(0), c(v(1), v(2))));
+}
+
+/// input {"repr","f"}: id;f ≅ f ≅ f;id, f⊗id_I ≅ f ≅ id_I⊗f, id_a⊗id_b ≅ id_{a·b}, id;id ≅ id
+fn chk_unit(ctx: &mut Ctx, input: &Value) {
+    let Some(o) = opds(input, &["f"]) else { return };
+    let f = o[0].sem();
+    let (a, b) = (f.source_type(), f.target_type());
+    ctx.case("unit", input, f.nontrivial());
+    law(ctx, "unit", "left-unit", input, &o, &c(id(&a), v(0)), &v(0));
+    law(ctx, "unit", "right-unit", input, &o, &c(v(0), id(&b)), &v(0));
+    law(ctx, "unit", "tensor-right-unit", input, &o, &t(v(0), id(&[])), &v(0));
+    law(ctx, "unit", "tensor-left-unit", input, &o, &t(id(&[]), v(0)), &v(0));
+    law(ctx, "unit", "tensor-of-identities", input, &o, &t(id(&a), id(&b)), &id(&cat(&a, &b)));
+    law(ctx, "unit", "identity-idempotent", input, &o, &c(id(&b), id(&b)), &id(&b));
+    // a wrong unit must not be accepted: f ; id_{b'} with b' != b has to be undefined
+    if !b.is_empty() {
+        let mut b2 = b.clone();
+        b2[0] ^= 1;
+        law(ctx, "unit", "right-unit-mismatch", input, &o, &c(v(0), id(&b2)), &c(v(0), id(&b2)));
+    }
+}
+
+/// input {"repr","f","g","h"}: (f⊗g)⊗h ≅ f⊗(g⊗h)
+fn chk_tensor_assoc(ctx: &mut Ctx, input: &Value) {
+    let Some(o) = opds(input, &["f", "g", "h"]) else { return };
+    let nt = o.iter().filter(|x| x.m.nontrivial() || !x.m.x.is_empty()).count() >= 2;
+    ctx.case("tensor-assoc", input, nt);
+    law(ctx, "tensor-assoc", "tensor-assoc", input, &o, &t(t(v(0), v(1)), v(2)), &t(v(0), t(v(1), v(2))));
+}
+
+/// input {"repr","f","g","h","k"}: (f⊗g);(h⊗k) ≅ (f;h)⊗(g;k) whenever f;h and g;k are defined
+fn chk_interchange(ctx: &mut Ctx, input: &Value) {
+    let Some(o) = opds(input, &["f", "g", "h", "k"]) else { return };
+    let r: Vec<M> = o.iter().map(|x| x.sem()).collect();
+    let hyp = r[0].target_type() == r[2].source_type() && r[1].target_type() == r[3].source_type();
+    ctx.case("interchange", input, hyp && r.iter().filter(|m| m.nontrivial()).count() >= 2);
+    law(ctx, "interchange", "interchange", input, &o, &c(t(v(0), v(1)), t(v(2), v(3))), &t(c(v(0), v(2)), c(v(1), v(3))));
+}
+
+/// input {"repr","f","g"}: f:a→b, g:c→d.  (f⊗g);σ(b,d) ≅ σ(a,c);(g⊗f), and naturality in each argument separately
+fn chk_twist_natural(ctx: &mut Ctx, input: &Value) {
+    let Some(o) = opds(input, &["f", "g"]) else { return };
+    let (f, g) = (o[0].sem(), o[1].sem());
+    let (a, b, cc, d) = (f.source_type(), f.target_type(), g.source_type(), g.target_type());
+    ctx.case("twist-natural", input, f.nontrivial() && g.nontrivial());
+    law(ctx, "twist-natural", "twist-natural", input, &o, &c(t(v(0), v(1)), tw(&b, &d)), &c(tw(&a, &cc), t(v(1), v(0))));
+    law(ctx, "twist-natural", "twist-natural-1", input, &o, &c(t(v(0), id(&cc)), tw(&b, &cc)), &c(tw(&a, &cc), t(id(&cc), v(0))));
+    law(ctx, "twist-natural", "twist-natural-2", input, &o, &c(t(id(&a), v(1)), tw(&a, &d)), &c(tw(&a, &cc), t(v(1), id(&a))));
+}
+
+/// input {"repr","a","b"}: σ(a,b);σ(b,a) ≅ id(a·b); σ(a,I) ≅ id(a) ≅ σ(I,a); σ(a,b) has the definition's wiring
+fn chk_twist_inverse(ctx: &mut Ctx, input: &Value) {
+    let (Some(a), Some(b)) = (u8s(&input["a"]), u8s(&input["b"])) else { return };
+    ctx.case("twist-inverse", input, !a.is_empty() && !b.is_empty());
+    let ab = cat(&a, &b);
+    law(ctx, "twist-inverse", "twist-self-inverse", input, &[], &c(tw(&a, &b), tw(&b, &a)), &id(&ab));
+    law(ctx, "twist-inverse", "twist-unit-right", input, &[], &tw(&a, &[]), &id(&a));
+    law(ctx, "twist-inverse", "twist-unit-left", input, &[], &tw(&[], &b), &id(&b));
+    // composing with the identities of the stated boundary types must be defined (types of σ)
+    law(ctx, "twist-inverse", "twist-type", input, &[], &c(c(id(&ab), tw(&a, &b)), id(&cat(&b, &a))), &tw(&a, &b));
+}
+
+/// input {"repr","a","b","c"}: both hexagons (strict monoidal: associators are identities)
+fn chk_hexagon(ctx: &mut Ctx, input: &Value) {
+    let (Some(a), Some(b), Some(cc)) = (u8s(&input["a"]), u8s(&input["b"]), u8s(&input["c"])) else { return };
+    ctx.case("hexagon", input, [&a, &b, &cc].iter().filter(|x| !x.is_empty()).count() >= 2);
+    law(ctx, "hexagon", "hexagon-1", input, &[], &tw(&a, &cat(&b, &cc)), &c(t(tw(&a, &b), id(&cc)), t(id(&b), tw(&a, &cc))));
+    law(ctx, "hexagon", "hexagon-2", input, &[], &tw(&cat(&a, &b), &cc), &c(t(id(&a), tw(&b, &cc)), t(tw(&a, &cc), id(&b))));
+}
+
+// ------------------------------------------------------------------------------------------------
+// generators
+// ------------------------------------------------------------------------------------------------
+fn sp(w: Vec<u8>, s: Vec<usize>, t: Vec<usize>) -> M {
+    M { w, x: vec![], src: vec![], tgt: vec![], s, t }
+}
+
+/// corner list of this property (on top of model::corner_models)
+fn corners() -> Vec<M> {
+    let mut v = corner_models();
+    v.extend(vec![
+        sp(vec![0, 0, 1], vec![0, 1, 2], vec![1, 0, 2]), // operation-free, non-identity wiring (a permutation)
+        sp(vec![0], vec![0, 0], vec![0, 0]),            // s == t but not injective: merges, is NOT an identity
+        sp(vec![0], vec![], vec![0, 0]),                // cup
+        sp(vec![0], vec![0, 0], vec![]),                // cap
+        sp(vec![0, 0], vec![0, 1], vec![0, 0]),         // non-surjective target leg, dangling node 1
+        sp(vec![0, 0], vec![0], vec![0, 1]),            // injective target, non-surjective source
+        sp(vec![0, 1, 0], vec![0], vec![2]),            // isolated nodes, disconnected interface
+        // 5 parallel edges between two nodes (multiplicity > number of nodes)
+        M { w: vec![0, 0], x: vec![10; 5], src: vec![vec![0]; 5], tgt: vec![vec![1]; 5], s: vec![0], t: vec![1] },
+        // one edge using the same node 5 times on each side; the boundary repeats it 4 times
+        M { w: vec![0], x: vec![10], src: vec![vec![0; 5]], tgt: vec![vec![0; 5]], s: vec![0; 4], t: vec![0; 4] },
+        // non-monogamous: node 0 feeds two edges, node 1 is produced twice; distinguishable edge labels
+        M { w: vec![0, 0], x: vec![10, 11], src: vec![vec![0], vec![0]], tgt: vec![vec![1], vec![1]], s: vec![0], t: vec![1, 1] },
+        // 3-cycle through the boundary
+        M { w: vec![0, 0, 0], x: vec![10, 10, 11], src: vec![vec![0], vec![1], vec![2]], tgt: vec![vec![1], vec![2], vec![0]], s: vec![0, 1], t: vec![2, 0] },
+        // zero-arity edges next to nodes
+        M { w: vec![1], x: vec![10, 11], src: vec![vec![], vec![]], tgt: vec![vec![], vec![0]], s: vec![0], t: vec![0] },
+        // 8 parallel boundary wires on one node while another node stays apart: more identifications than nodes,
+        // yet more than one class
+        sp(vec![0, 0], vec![0], vec![0; 8]),
+        sp(vec![0, 0], vec![0; 8], vec![1, 0]),
+        identity(&[0, 0]),
+        twist(&[0], &[0]),
+        twist(&[0, 1], &[1]),
+    ]);
+    v
+}
+
+/// pairs (a,b), a_j·2^l ~ b_(j·2^l + 2^(l-1)) for the given levels; level 0 is a_i ~ b_i: unions in binomial-tree order
+fn binomial_pairs(m: usize, levels: &[usize]) -> (Vec<usize>, Vec<usize>) {
+    let (mut a, mut b) = (vec![], vec![]);
+    for &l in levels {
+        if l == 0 {
+            for i in 0..m {
+                a.push(i);
+                b.push(i);
+            }
+        } else {
+            let step = 1usize << l;
+            let mut j = 0;
+            while j + step / 2 < m {
+                a.push(j);
+                b.push(j + step / 2);
+                j += step;
+            }
+        }
+    }
+    (a, b)
+}
+
+fn random_q(r: &mut Rng, m: &M) -> Vec<(usize, usize)> {
+    let n = m.w.len();
+    let mut q = vec![];
+    if n == 0 {
+        return q;
+    }
+    for _ in 0..r.below(3) {
+        let a = r.below(n);
+        let cands: Vec<usize> = (0..n).filter(|&i| m.w[i] == m.w[a]).collect();
+        q.push((a, cands[r.below(cands.len())]));
+    }
+    q
+}
+
+fn maybe_q(r: &mut Rng, m: M, lax_repr: bool) -> Opd {
+    let q = if lax_repr && r.chance(1, 2) { random_q(r, &m) } else { vec![] };
+    Opd { m, q }
+}
+
+/// a random operand whose DENOTED source type is `ty` (if given)
+fn rand_opd(r: &mut Rng, b: Bounds, ty: Option<&[u8]>, lax_repr: bool) -> Opd {
+    let m = match ty {
+        Some(ty) => random_model_with_source(r, b, ty),
+        None => random_model(r, b),
+    };
+    maybe_q(r, m, lax_repr)
+}
+
+/// all maps {0..len} → {0..n} for len ≤ maxlen
+fn all_maps(n: usize, maxlen: usize) -> Vec<Vec<usize>> {
+    let mut out = vec![vec![]];
+    if n == 0 {
+        return out;
+    }
+    let mut layer: Vec<Vec<usize>> = vec![vec![]];
+    for _ in 0..maxlen {
+        let mut next = vec![];
+        for l in &layer {
+            for x in 0..n {
+                let mut l2 = l.clone();
+                l2.push(x);
+                next.push(l2);
+            }
+        }
+        out.extend(next.iter().cloned());
+        layer = next;
+    }
+    out
+}
+
+/// all operation-free diagrams with one label, ≤ maxn nodes, legs of length ≤ maxleg
+fn all_spiders(maxn: usize, maxleg: usize) -> Vec<M> {
+    let mut out = vec![];
+    for n in 0..=maxn {
+        let maps = all_maps(n, maxleg);
+        for s in &maps {
+            for t in &maps {
+                out.push(sp(vec![0; n], s.clone(), t.clone()));
+            }
+        }
+    }
+    out
+}
+
+fn all_types(maxlen: usize) -> Vec<Vec<u8>> {
+    all_maps(2, maxlen).into_iter().map(|l| l.into_iter().map(|x| x as u8).collect()).collect()
+}
+
+pub fn run(ctx: &mut Ctx) {
+    if let Some((name, input)) = ctx.replay.clone() {
+        for (n, chk) in CHECKS {
+            if *n == name {
+                chk(ctx, &input);
+            }
+        }
+        return;
+    }
+    let thorough = ctx.thorough();
+    let cs = corners();
+    let j = |m: &M| m.json();
+
+    for repr in ["strict", "lax"] {
+        let lax_repr = repr == "lax";
+        // ---------------- object-level laws: exhaustive over type lists with labels {0,1} --------------
+        let tys = all_types(if thorough { 3 } else { 2 });
+        for a in &tys {
+            for b in &tys {
+                chk_twist_inverse(ctx, &json!({"repr": repr, "a": a, "b": b}));
+            }
+        }
+        let tys3 = all_types(if thorough { 3 } else { 2 });
+        for a in &tys3 {
+            for b in &tys3 {
+                for cc in &tys3 {
+                    if !thorough && a.len() + b.len() + cc.len() > 4 {
+                        continue;
+                    }
+                    chk_hexagon(ctx, &json!({"repr": repr, "a": a, "b": b, "c": cc}));
+                }
+            }
+        }
+        // long object lists (more wires than any diagram has nodes elsewhere)
+        chk_twist_inverse(ctx, &json!({"repr": repr, "a": [0, 1, 0, 0, 1, 1, 0], "b": [1, 1, 0, 1, 0]}));
+        chk_hexagon(ctx, &json!({"repr": repr, "a": [0, 1, 0, 0], "b": [1, 1, 0, 1, 0], "c": [0, 0, 1]}));
+        chk_hexagon(ctx, &json!({"repr": repr, "a": [0, 0], "b": [0, 0], "c": [0, 0]}));
+
+        // ---------------- corner diagrams -------------------------------------------------------------
+        for f in &cs {
+            chk_unit(ctx, &json!({"repr": repr, "f": j(f)}));
+            for g in &cs {
+                chk_twist_natural(ctx, &json!({"repr": repr, "f": j(f), "g": j(g)}));
+                for h in &cs {
+                    // every triple for associativity (most are not composable: both sides must be None)
+                    chk_assoc(ctx, &json!({"repr": repr, "f": j(f), "g": j(g), "h": j(h)}));
+                }
+            }
+        }
+        // tensor associativity on a diagonal-ish subset of triples (cheap, all defined)
+        for (i, f) in cs.iter().enumerate() {
+            for (k, g) in cs.iter().enumerate() {
+                let h = &cs[(i * 7 + k * 3 + 1) % cs.len()];
+                chk_tensor_assoc(ctx, &json!({"repr": repr, "f": j(f), "g": j(g), "h": j(h)}));
+            }
+        }
+        // interchange on all pairs of composable corner pairs
+        let mut pairs = vec![];
+        for f in &cs {
+            for h in &cs {
+                if f.target_type() == h.source_type() {
+                    pairs.push((f.clone(), h.clone()));
+                }
+            }
+        }
+        let stride = if thorough { 1 } else { 5 };
+        for (i, (f, h)) in pairs.iter().enumerate() {
+            for (k, (g, kk)) in pairs.iter().enumerate() {
+                if (i + k) % stride != 0 {
+                    continue;
+                }
+                chk_interchange(ctx, &json!({"repr": repr, "f": j(f), "g": j(g), "h": j(h), "k": j(kk)}));
+            }
+        }
+        // interchange where only the tensors compose (f;h undefined although (f⊗g);(h⊗k) is defined)
+        chk_interchange(ctx, &json!({"repr": repr, "f": j(&identity(&[0, 1])), "g": j(&identity(&[0])), "h": j(&identity(&[0])), "k": j(&identity(&[1, 0]))}));
+
+        // ---------------- exhaustive: operation-free diagrams, one label ---------------------------------
+        // all composable triples with ≤2 nodes and legs ≤2 (thorough) / legs ≤1 plus a stride sample (quick)
+        let sps = all_spiders(2, 2);
+        let mut cnt = 0usize;
+        for f in &sps {
+            for g in &sps {
+                if f.t.len() != g.s.len() {
+                    continue;
+                }
+                for h in &sps {
+                    if g.t.len() != h.s.len() {
+                        continue;
+                    }
+                    cnt += 1;
+                    if !thorough && cnt % 7 != 0 {
+                        continue;
+                    }
+                    chk_assoc(ctx, &json!({"repr": repr, "f": j(f), "g": j(g), "h": j(h)}));
+                }
+            }
+        }
+        // all pairs of spiders: unit laws need one, naturality two
+        for (i, f) in sps.iter().enumerate() {
+            chk_unit(ctx, &json!({"repr": repr, "f": j(f)}));
+            for (k, g) in sps.iter().enumerate() {
+                if !thorough && (i * 31 + k) % 17 != 0 {
+                    continue;
+                }
+                chk_twist_natural(ctx, &json!({"repr": repr, "f": j(f), "g": j(g)}));
+            }
+        }
+
+        // ---------------- deep union-find trees: 32+32(+32) nodes merged in binomial-tree order -----------
+        for (l1, l2) in [(vec![0usize, 1, 2], vec![0usize, 3, 4, 5]), (vec![0, 1, 2, 3, 4, 5], vec![0]), (vec![1, 2, 3, 4, 5], vec![5, 4, 3, 2, 1, 0]), (vec![5, 4, 3, 2, 1, 0], vec![0, 1, 2, 3])] {
+            let m = 32;
+            let (ft, gs) = binomial_pairs(m, &l1);
+            let (gt, hs) = binomial_pairs(m, &l2);
+            let f = sp(vec![0; m], vec![0, m - 1], ft);
+            let g = sp(vec![0; m], gs, gt);
+            let mut h = sp(vec![0; m], hs, vec![m - 1, 0, 17]);
+            h.x = vec![10];
+            h.src = vec![vec![3, 31]];
+            h.tgt = vec![vec![16]];
+            chk_assoc(ctx, &json!({"repr": repr, "f": j(&f), "g": j(&g), "h": j(&h)}));
+            chk_interchange(ctx, &json!({"repr": repr, "f": j(&f), "g": j(&g), "h": j(&g), "k": j(&h)}));
+            chk_twist_natural(ctx, &json!({"repr": repr, "f": j(&f), "g": j(&h)}));
+        }
+        // long chain: f.t = 0..m-1, g.s pairs i with i+1 → one class through a path of length 2m
+        {
+            let m = 40;
+            let f = sp(vec![0; m], vec![0], (0..m - 1).chain(1..m).collect());
+            let g = sp(vec![0; m], (0..m - 1).chain(0..m - 1).collect(), vec![m - 1, 0]);
+            let h = sp(vec![0; 2], vec![0, 1], vec![1]);
+            chk_assoc(ctx, &json!({"repr": repr, "f": j(&f), "g": j(&g), "h": j(&h)}));
+        }
+
+        // ---------------- seeded random --------------------------------------------------------------
+        let n = ctx.budget(2000, 90000);
+        for i in 0..n {
+            let b = if i % 4 == 0 { MEDIUM } else { SMALL };
+            // composable chain f;g;h (5/6) or arbitrary (1/6)
+            let f = rand_opd(&mut ctx.rng, b, None, lax_repr);
+            let chain = !ctx.rng.chance(1, 6);
+            let fty = f.sem().target_type();
+            let g = rand_opd(&mut ctx.rng, b, if chain { Some(&fty) } else { None }, lax_repr);
+            let gty = g.sem().target_type();
+            let h = rand_opd(&mut ctx.rng, b, if chain { Some(&gty) } else { None }, lax_repr);
+            // random_model_with_source fixes the source type of the plain model; pending identifications
+            // keep labels, hence the denoted source type is the same list
+            chk_assoc(ctx, &json!({"repr": repr, "f": f.json(), "g": g.json(), "h": h.json()}));
+            if i % 5 == 0 {
+                chk_tensor_assoc(ctx, &json!({"repr": repr, "f": f.json(), "g": g.json(), "h": h.json()}));
+                chk_unit(ctx, &json!({"repr": repr, "f": g.json()}));
+            }
+            // interchange: two composable pairs (f;g) and (p;k)
+            let p = rand_opd(&mut ctx.rng, b, None, lax_repr);
+            let pty = p.sem().target_type();
+            let k = rand_opd(&mut ctx.rng, b, Some(&pty), lax_repr);
+            chk_interchange(ctx, &json!({"repr": repr, "f": f.json(), "g": p.json(), "h": g.json(), "k": k.json()}));
+            chk_twist_natural(ctx, &json!({"repr": repr, "f": f.json(), "g": k.json()}));
+        }
+    }
+    ctx.notes.push(
+        "rule: each law is evaluated on the real library (strict and lax) and on the reference operations; sides compared with model::iso. \
+         inputs: (a) corner list (model::corner_models + 15 C03 corners: permutations, s==t non-injective, cup/cap, dangling nodes, 5 parallel edges on 2 nodes, \
+         a node used 5x by one edge, non-monogamous, 3-cycle, zero-arity edges, twists) — all triples for assoc, all pairs for twist naturality, all pairs of composable pairs for interchange (stride 5 in quick); \
+         (b) exhaustive: type lists over labels {0,1} of length ≤2 (quick) / ≤3 (thorough) for self-inverse (pairs) and hexagons (triples); all operation-free diagrams with ≤2 nodes and legs ≤2 (59 diagrams): every composable triple for assoc (1/7 sample in quick), every pair for naturality (1/17 sample in quick); \
+         (c) 32+32+32-node binomial-order merges and a 40-node path; (d) seeded random SMALL(3 nodes,2 edges,arity 2,iface 3,labels 2)/MEDIUM(5,3,3,4,2) chains f;g;h composable by construction in 5/6 of the cases, 2000 (quick) / 90000 (thorough) per representation, lax operands carry 0-2 pending same-label identifications with probability 1/2 (also on the right operand). \
+         non-trivial = the law's hypotheses hold (compositions defined) and at least two operands have a node and an edge or interface (object laws: at least two non-empty lists)"
+            .into(),
+    );
+}
